@@ -182,7 +182,10 @@ class FieldData:
         (self.__class__.STORAGE_KEY == "name" and \
         fieldname == self.__class__.NAME_FIELD):
          renaming_connected = True
-    if value is not None and self.vlevel >= 3:
+    if value is not None and (self.vlevel >= 3 or
+        (renaming_connected and self.vlevel >= 1)):
+      # (the new name of a connected line is read when the line is registered
+      # again: an invalid name must be refused before the line is unregistered)
       self._field_or_default_datatype(fieldname, value)
       gfapy.Field._validate_gfa_field(value, self._field_datatype(fieldname),
           fieldname)
